@@ -67,9 +67,12 @@ def run(prog):
     names = [cs.callee.name for g in [c] + nested for cs in g.terms.calls]
     # a comparison of two literals of the clause: label == label && polarity != polarity, or the Literal methods that say
     # the same (their definitions are rule LP's business)
-    has_cmp = (("label" in names) and ("polarity" in names)) or ("implies_false" in names) or ("negated" in names)
+    # (after sorting and de-duplication two literals on one variable are complementary: a label comparison alone is a pair test)
+    has_cmp = ("label" in names) or ("implies_false" in names) or ("negated" in names)
     if not has_cmp:
-        local_calls = [cs.callee.name for g in [c] + nested for cs in g.terms.calls if cs.callee.local or getattr(cs.callee, "res_local", False)]
+        local_calls = [cs.callee.name for g in [c] + nested for cs in g.terms.calls
+                       if (cs.callee.local or getattr(cs.callee, "res_local", False)) and
+                       cs.callee.name not in ("eq", "ne", "label", "polarity", "value", "value_usize", "cmp", "partial_cmp")]
         if local_calls:
             return [inst("TF", key, UNDECIDED, c, None, "? the clause filter delegates to %s; no literal comparison found" % sorted(set(local_calls))[:4])]
         return [inst("TF", key, VIOLATION, c, None,
